@@ -2,7 +2,7 @@
    bytecode equality, VM results (byte-level and instruction-level fetch), source semantics vs the Go toolchain. *)
 From Coq Require Import List ZArith Bool String.
 From RG.Base Require Import Outcome GoInt GoSlice.
-From RG.Quasigo Require Import Source Bytecode Compile VM Sem Guards Link.
+From RG.Quasigo Require Import Source Bytecode Compile VM Sem Guards Link FunCorrect Correct.
 Import ListNotations.
 Local Open Scope Z_scope.
 
@@ -142,7 +142,14 @@ Fixpoint check_calls (p : pcase) (vb : list vfunc) (vi : option (list vfunc)) (j
 Definition unsafe_roots (p : pcase) : list Z :=
   filter (reaches_unsafe (pc_funs p)) (map Z.of_nat (seq 0 (List.length (pc_funs p)))).
 
-(* result: (function-level issues, call-level issues, unsafe roots) *)
+(* is the program inside the guard of compile_correct_partial? (1 = yes) *)
+Definition scope_bit (p : pcase) : Z :=
+  match compile_prog cfg (pc_funs p) with
+  | COk cs => if in_scope cfg (pc_funs p) cs then 1 else 0
+  | CErr _ => 0
+  end.
+
+(* result: (function-level issues, call-level issues, unsafe roots ++ [-1; scope bit]) *)
 Definition check_prog (p : pcase) : list (Z * Z) * list (Z * Z) * list Z :=
   let vi := match compile_prog cfg (firstn (List.length (pc_dumps p)) (pc_funs p)) with
             | COk cs => Some (map vfunc_of_cfunc cs)
@@ -150,6 +157,6 @@ Definition check_prog (p : pcase) : list (Z * Z) * list (Z * Z) * list Z :=
             end in
   (check_funs 0 (pc_funs p) (pc_dumps p) (pc_err p),
    check_calls p (vfuncs_bytes (pc_dumps p)) vi 0 (pc_calls p),
-   unsafe_roots p).
+   unsafe_roots p ++ [-1; scope_bit p]).
 
 End Checks.
